@@ -9,9 +9,14 @@ pub mod c03;
 pub mod c04;
 pub mod c05;
 pub mod c06;
+pub mod c07;
 pub mod c08;
 pub mod c09;
 pub mod c10;
+pub mod c11;
+pub mod c12;
+pub mod c16;
+pub mod c18;
 
 pub fn n_cases(ctx: &Ctx) -> u64 {
     match ctx.prop.as_str() {
@@ -22,9 +27,14 @@ pub fn n_cases(ctx: &Ctx) -> u64 {
         "C04" => c04::n_cases(ctx),
         "C05" => c05::n_cases(ctx),
         "C06" => c06::n_cases(ctx),
+        "C07" => c07::n_cases(ctx),
         "C08" => c08::n_cases(ctx),
         "C09" => c09::n_cases(ctx),
         "C10" => c10::n_cases(ctx),
+        "C11" => c11::n_cases(ctx),
+        "C12" => c12::n_cases(ctx),
+        "C16" => c16::n_cases(ctx),
+        "C18" => c18::n_cases(ctx),
         _ => 0,
     }
 }
@@ -38,9 +48,14 @@ pub fn run_case(ctx: &Ctx, idx: u64) -> Vec<CaseOut> {
         "C04" => c04::run_case(ctx, idx),
         "C05" => c05::run_case(ctx, idx),
         "C06" => c06::run_case(ctx, idx),
+        "C07" => c07::run_case(ctx, idx),
         "C08" => c08::run_case(ctx, idx),
         "C09" => c09::run_case(ctx, idx),
         "C10" => c10::run_case(ctx, idx),
+        "C11" => c11::run_case(ctx, idx),
+        "C12" => c12::run_case(ctx, idx),
+        "C16" => c16::run_case(ctx, idx),
+        "C18" => c18::run_case(ctx, idx),
         _ => Vec::new(),
     }
 }
